@@ -112,13 +112,15 @@ PollFutOp(f, w) ==
 (* operational layer: factories                                                                     *)
 (* ================================================================================================ *)
 \* a scripted init future (fn_factory closure, apply_cfg closure, Transform::new_transform)
-Scr(id, k, r, err, s) == [o |-> "iscr", id |-> id, n |-> 0, k |-> k, r |-> r, err |-> err, svc |-> s, done |-> FALSE]
+Scr(id, k, r, err, s) == [o |-> "iscr", id |-> id, n |-> 0, k |-> k, r |-> r, err |-> err, svc |-> s, done |-> FALSE,
+                          quiet |-> FALSE]
 Twice(acc) == IF FactoryBuildsTwice THEN acc \o acc ELSE acc
 
 RECURSIVE NewServiceOp(_, _)
 NewServiceOp(t, c) ==
   CASE t.o = "fleaf" ->
-         [ifut |-> Scr(t.id, t.fk, t.fr, InitErr(t.id, LeafCfg(t, c)), LeafOfF(t)),
+         \* fn_service(f).new_service(_) = ok(FnService::new(f.clone())): the crate's own Ready future, no poll visible
+         [ifut |-> [Scr(t.id, t.fk, t.fr, InitErr(t.id, LeafCfg(t, c)), LeafOfF(t)) EXCEPT !.quiet = (t.kind = "fnsvc")],
           acc |-> <<Ev("new", t.id, 0, "", LeafCfg(t, c))>>]
     [] t.o = "fand_then" ->       \* new(a.new_service(cfg.clone()), b.new_service(cfg))
          LET na == NewServiceOp(t.a, c)
@@ -164,10 +166,11 @@ AcfB(g, r0, w, pre) ==
 
 PollInitOp(g, r0, w) ==
   CASE g.o = "iscr" ->
-         IF g.done THEN IRes(g, Res("panic", ""), NoSvc, <<Ev("pi", g.id, w, "panic", "")>>, r0)
-         ELSE IF g.n < g.k THEN IRes([g EXCEPT !.n = @ + 1], Pending, NoSvc, <<Ev("pi", g.id, w, "pending", "")>>, r0)
-         ELSE IF g.r = "ok" THEN IRes([g EXCEPT !.done = TRUE], ReadyOk, g.svc, <<Ev("pi", g.id, w, "ok", "")>>, r0)
-         ELSE IRes([g EXCEPT !.done = TRUE], Res("err", g.err), NoSvc, <<Ev("pi", g.id, w, "err", "")>>, r0)
+         LET A(r) == IF g.quiet THEN <<>> ELSE <<Ev("pi", g.id, w, r, "")>> IN
+         IF g.done THEN IRes(g, Res("panic", ""), NoSvc, A("panic"), r0)
+         ELSE IF g.n < g.k THEN IRes([g EXCEPT !.n = @ + 1], Pending, NoSvc, A("pending"), r0)
+         ELSE IF g.r = "ok" THEN IRes([g EXCEPT !.done = TRUE], ReadyOk, g.svc, A("ok"), r0)
+         ELSE IRes([g EXCEPT !.done = TRUE], Res("err", g.err), NoSvc, A("err"), r0)
     [] g.o = "iat" ->
          \* if a.is_none() { if let Ready(s) = fut_a.poll(cx)? { a = Some(s) } }  -- same for b -- both => Ready
          LET pollA == g.a.o = "none" /\ g.ea = ""
@@ -337,6 +340,12 @@ ReadyRounds(lg) == {i \in 1..Len(lg) : lg[i].ph = "ready"}
 \* leaf `id` has answered a poll_ready with Ready in a round before round i
 ReadyBefore(lg, i, id) == \E j \in 1..(i - 1) : \E e \in Seq2Set(lg[j].acc) : e.e = "pr" /\ e.id = id /\ e.r # "pending"
 
+RECURSIVE QuietIds(_)      \* fn_service leaves: their init future is the crate's Ready, not observable
+QuietIds(t) == CASE t.o = "fleaf" -> (IF t.kind = "fnsvc" THEN {t.id} ELSE {})
+                 [] t.o = "fapply_cfg" -> {}
+                 [] t.o = "fand_then" -> QuietIds(t.a) \cup QuietIds(t.b)
+                 [] OTHER -> QuietIds(t.a)
+
 RECURSIVE AcfNodes(_)      \* apply_cfg_factory nodes of a factory term
 AcfNodes(t) == CASE t.o \in {"fleaf", "fapply_cfg"} -> {}
                  [] t.o = "fand_then" -> AcfNodes(t.a) \cup AcfNodes(t.b)
@@ -377,7 +386,8 @@ LiveAfter(lg, i, mk, pk) ==
 AcfWaiting(n, lg, i) ==
   LET F == Flat(lg, 1)
       upto == {x \in Seq2Set(F) : x.rd <= i} IN
-    /\ \A pr \in Creates(n.a, "()") : \E x \in upto : x.ev.e = "pi" /\ x.ev.id = pr[1] /\ x.ev.r = "ok"
+    /\ \A pr \in Creates(n.a, "()") :
+         pr[1] \in QuietIds(n.a) \/ \E x \in upto : x.ev.e = "pi" /\ x.ev.id = pr[1] /\ x.ev.r = "ok"
     /\ ~\E x \in upto : x.ev.e = "new" /\ x.ev.id = n.id
 
 \* whenever the root answers Pending, every still-pending inner service / future has been polled in
@@ -389,7 +399,7 @@ C12_PendingPolledAllWithCurrentWaker(t, rq, c, lg) ==
       /\ (lg[i].ph = "ready" => \A id \in ObsLeafIds(S) : ~ReadyBefore(lg, i, id) => Polled(i, "pr", id))
       /\ (lg[i].ph = "fut" => \A id \in LiveAfter(lg, i, "call", "pf") : Polled(i, "pf", id))
       /\ (lg[i].ph = "init" =>
-            /\ \A id \in LiveAfter(lg, i, "new", "pi") : Polled(i, "pi", id)
+            /\ \A id \in (LiveAfter(lg, i, "new", "pi") \ QuietIds(t)) : Polled(i, "pi", id)
             /\ \A n \in AcfNodes(t) : AcfWaiting(n, lg, i) =>
                  \A id \in ObsLeafIds(Build(n.a, "()")) : ~ReadyBefore(lg, i, id) => Polled(i, "pr", id))
 
@@ -432,8 +442,8 @@ Holds(name, t, rq, c, lg) ==
 AllNames == C11Names \o C12Names
 Failing(t, rq, c, lg) == SelectSeq(AllNames, LAMBDA n : ~Holds(n, t, rq, c, lg))
 
-(* ---------------- state invariants of the machine (the log is judged on every state) ------------- *)
-Inv(name) == Holds(name, T, req, cfg, log)
+(* ---------------- state invariants of the machine (the complete log is judged at the terminal state) - *)
+Inv(name) == phase = "done" => Holds(name, T, req, cfg, log)   \* every run ends (C12_Terminates); the whole log is judged
 I_C11_ResultIsEval == Inv("C11_ResultIsEval")
 I_C11_SecondOnlyAfterFirstOk == Inv("C11_SecondOnlyAfterFirstOk")
 I_C11_MapperOnceOnMatchingVariant == Inv("C11_MapperOnceOnMatchingVariant")
